@@ -1093,7 +1093,7 @@ func main() {
 	nruns, kcap := 480, 320
 	budget := 45 * time.Second
 	if a.Thorough() {
-		nruns, kcap, budget = 4000, 320, 18*time.Minute
+		nruns, kcap, budget = 40000, 2000, 15*time.Minute
 	}
 	if a.Extra == "search" {
 		nruns, kcap, budget = 3000, 0, 8*time.Minute
